@@ -8,7 +8,7 @@ from .. import gram, batch
 
 sys.path.insert(0, os.path.join(C.VERIF, "tools"))
 
-TOKEN_RE = re.compile(r"""'(?:\\.|[^\\'])+'|"[^"]*"|`[^`]*`|<<.*?>>|[^\s'"`]+""", re.S)
+TOKEN_RE = re.compile(r"""'(?:\\.|[^\\'])+'|"(?:\\.|[^\\"])*"|`[^`]*`|<<.*?>>|[^\s'"`]+""", re.S)
 VOCAB = [":", ";", "|", "(", ")", "[", "]", "{", "}", ".", "-", "tok9", "_reg9", "!ign9", "Prod9", "'q'", "\"str\"", "<< nil, nil >>", "error", "empty",
          ",", "<", "/", "import", "9"]
 
@@ -106,7 +106,15 @@ def value_mutant(rng, g):
     elif k == "nested_undefined_regdef":
         lex.append((0, "nest9", [[('l', 113), ('o', [[('p', [[('g', [[('f', "_undefined9")]])]])]])]]))
     else:
-        lex.append((2, "_unused9", [[('f', "_undefined9")]]))
+        # inside a definition nothing uses; sometimes after a reference that IS defined
+        regs = [n for kd, n, _ in lex if kd == 2]
+        if rng.random() < 0.6:
+            if not regs:
+                lex.append((2, "_def9", [[('l', 113)]]))
+                regs = ["_def9"]
+            lex.append((2, "_unused9", [[('f', rng.choice(regs)), ('l', 120), ('p', [[('f', "_undefined9")]])]]))
+        else:
+            lex.append((2, "_unused9", [[('f', "_undefined9")]]))
     return k, {"lex": lex, "syn": syn}
 
 
